@@ -31,7 +31,7 @@ LEVEL_NOTE = (
 RULE = (
     "case = list of operations over a pool of 1-4 keys (incl. '', '.', '..', 'a/b', unicode, '#', '%') with generated "
     "msgpack/numpy values, always ending in a reopen. Non-trivial: at least one reopen/crash check point preceded by "
-    ">=2 state-changing operations since the previous check point, with a non-empty model or a deletion among them. "
+    ">=2 effective state changes (a key written, deleted, mutated in place, flushed, or a reload) since the previous check point, with a non-empty model or a deletion among them. "
     "Distinct = distinct canonical JSON of the history."
 )
 ASSUMPTIONS = [
@@ -41,9 +41,6 @@ ASSUMPTIONS = [
     "nested dict keys avoid msgpack_numpy's reserved markers ('nd', 'complex')",
 ]
 ENGINE = "E3"
-
-MUTATING = {"set", "del", "pop", "popitem", "update", "setdefault", "clear", "mutate", "flush", "reload"}
-
 
 def _deep_eq(a, b):
     import numpy as np
@@ -116,6 +113,8 @@ def check_case(case) -> Result:
         return {"reopen": kind, "stale_finalizer_exposed": bool(stale), "had_reload": snapshot_keys is not None}
 
     def touched(k):
+        nonlocal since
+        since += 1
         if snapshot_keys is not None and k in snapshot_keys:
             stale.add(k)
 
@@ -247,6 +246,7 @@ def check_case(case) -> Result:
                                 live["m"] = x
                                 cache[k]["m"] = copy.deepcopy(x)
                             allowed[k].append(copy.deepcopy(cache[k]))
+                            since += 1
                             if "mutated_in_place" not in res.classes:
                                 res.classes.append("mutated_in_place")
                     elif name == "flush":
@@ -295,7 +295,7 @@ def check_case(case) -> Result:
                         raise
                     res.fail("op_raised", f"op #{i} {_short(op)} raised {type(e).__name__}: {e}", **feats("live"))
                     raise _Stop() from None
-                if name in MUTATING:
+                if name == "reload":
                     since += 1
                 live_check(i, op)
     except _Stop:
@@ -391,7 +391,7 @@ def _strategy():
 
 
 def run(ctx):
-    ctx.hyp(_strategy, check_case, max_examples=ctx.pick(3000, 100000))
+    ctx.hyp(_strategy, check_case, max_examples=ctx.pick(3000, 60000))
 
 
 def replay(case):
